@@ -3,17 +3,16 @@ C27 — Integer parsing is exact and overflow-safe.
 
 Property theorems only. Models: `Base/TokInt.lean` (`Parser::Tokenizer::int64`, `udec64`; C integer types explicit,
 signed overflow = outcome `ub`), `IntParse/Header.lean` (`httpHeaderParseOffset`, `httpHeaderParseInt` over a specification of
-strtoll/strtol/atoi). Specification: `Base/TokIntSpec.lean` (unbounded Horner value of the maximal digit run + range test).
+strtoll/strtol). Specification: `Base/TokIntSpec.lean` (unbounded Horner value of the maximal digit run + range test).
 All statements are for every byte string, every C `int` base, both sign settings and every limit (no size bound).
 
-Full statement of the property for `int64`, FALSE for the code as it stands (signed accumulator):
-  `∀ buf base allowSign limit, int64Raw buf base allowSign limit = specInt64 buf base allowSign limit`
-  (in particular `≠ ub`). It fails exactly on `inUbZone` (`int64_ub_iff`), witness `int64_ub_counterexample`;
-  proved with the zone excluded as `int64_refines_spec_partial`, and in full for an unsigned accumulator
-  (`int64_refines_spec_unsigned`; `Gen.TokConsts.accSigned` says which one the staged source has).
-Full statement for `httpHeaderParseInt`, FALSE for the atoi-based code: "returns the exact value or fails";
-  witness `parseInt_wraps_counterexample`; proved for values that fit an `int` as `parseInt_exact_partial`, and in full
-  for the range-checked variant (`parseInt_exact_checked`).
+The code as it is now (after /repo commits cc4ab0d and 5201bbe) accumulates the magnitude in a `uint64_t` and
+`httpHeaderParseInt` uses `strtol` with a range check; the translator reads both facts from the staged source
+(`Gen.TokConsts.accSigned = false`, `parseIntUsesAtoi = false`, theorem `source_flags`, re-decided every run), and the
+headline theorems below are the full-strength statements for that code:
+  `int64_refines_spec`, `int64_no_ub`, `int64_exact`, `int64_fails_iff`, `parseOffset_exact`, `parseInt_exact`.
+Section "pre-fix variant" keeps, clearly labelled, what was proved about the model variant with an `int64_t`
+accumulator / `atoi` (the former findings C27-int64-min-ub and C27-parseint-wraps): where exactly it overflowed or wrapped.
 -/
 import SquidModel.Base.TokIntLemmas
 import SquidModel.Base.TokLemmas
@@ -22,6 +21,9 @@ import SquidModel.IntParse.Lemmas
 namespace SquidModel.C27
 open SquidModel.Tok SquidModel.IntParse
 open SquidModel.Gen.TokConsts (accSigned parseIntUsesAtoi)
+
+/-- what the translator found in the staged source: `uint64_t acc` in `Tokenizer::int64`, no `atoi` in `httpHeaderParseInt` -/
+theorem source_flags : accSigned = false ∧ parseIntUsesAtoi = false := by decide
 
 /-! ### the constants of the model are those of the staged tree -/
 
@@ -34,55 +36,23 @@ theorem limits_match_source :
 
 /-! ### Tokenizer::int64 -/
 
-/-- **Refinement, with the overflow zone excluded.** Outside `inUbZone` the parser returns exactly what the
-arbitrary-precision specification says, whatever the type of the accumulator. -/
-theorem int64_refines_spec_partial (buf : Bytes) (base : Int) (hb : base < 2147483648) (allowSign : Bool) (limit : Nat)
-    (hz : inUbZone buf base allowSign limit = false) :
+/-- **Refinement (headline).** On every input `Tokenizer::int64` returns exactly what the arbitrary-precision
+specification says: the exact value and consumed length, or failure. -/
+theorem int64_refines_spec (buf : Bytes) (base : Int) (hb : base < 2147483648) (allowSign : Bool) (limit : Nat) :
     int64Raw buf base allowSign limit = specInt64 buf base allowSign limit := by
   unfold int64Raw
-  rw [int64Core_eq _ buf base hb allowSign limit, hz]
+  rw [source_flags.1, int64Core_eq false buf base hb allowSign limit]
   simp
 
-/-- **Refinement, full**, for an unsigned accumulator: equality with the specification on every input. -/
-theorem int64_refines_spec_unsigned (buf : Bytes) (base : Int) (hb : base < 2147483648) (allowSign : Bool) (limit : Nat) :
-    int64Core false buf base allowSign limit = specInt64 buf base allowSign limit := by
-  rw [int64Core_eq false buf base hb allowSign limit]
-  simp
-
-/-- … hence, if the staged source declares the accumulator unsigned, the code as it stands is exact everywhere. -/
-theorem int64_refines_spec (h : accSigned = false) (buf : Bytes) (base : Int) (hb : base < 2147483648) (allowSign : Bool)
-    (limit : Nat) : int64Raw buf base allowSign limit = specInt64 buf base allowSign limit := by
-  unfold int64Raw; rw [h]; exact int64_refines_spec_unsigned buf base hb allowSign limit
-
-/-- **No undefined behaviour** outside the zone (any accumulator type) … -/
-theorem int64_no_ub_partial (signed : Bool) (buf : Bytes) (base : Int) (hb : base < 2147483648) (allowSign : Bool) (limit : Nat)
-    (hz : inUbZone buf base allowSign limit = false) : int64Core signed buf base allowSign limit ≠ .ub := by
-  rw [int64Core_eq signed buf base hb allowSign limit, hz]
-  simpa using specInt64_ne_ub buf base allowSign limit
-
-/-- … and the signed accumulator overflows on exactly the zone: a '-' numeral (sign accepted) one of whose digit-run
-prefixes denotes 2^63. -/
-theorem int64_ub_iff (buf : Bytes) (base : Int) (hb : base < 2147483648) (allowSign : Bool) (limit : Nat) :
-    int64Core true buf base allowSign limit = .ub ↔ inUbZone buf base allowSign limit = true := by
-  rw [int64Core_eq true buf base hb allowSign limit]
-  cases hz : inUbZone buf base allowSign limit with
-  | true => simp
-  | false => simpa using specInt64_ne_ub buf base allowSign limit
-
-/-- the unsigned accumulator never overflows -/
-theorem int64_no_ub_unsigned (buf : Bytes) (base : Int) (hb : base < 2147483648) (allowSign : Bool) (limit : Nat) :
-    int64Core false buf base allowSign limit ≠ .ub := by
-  rw [int64_refines_spec_unsigned buf base hb allowSign limit]
+/-- **No undefined behaviour (headline)**: no input, base, sign setting or limit makes `int64` overflow. -/
+theorem int64_no_ub (buf : Bytes) (base : Int) (hb : base < 2147483648) (allowSign : Bool) (limit : Nat) :
+    int64Raw buf base allowSign limit ≠ .ub := by
+  rw [int64_refines_spec buf base hb allowSign limit]
   exact specInt64_ne_ub buf base allowSign limit
 
-/-- The violation on the real code: `int64("-9223372036854775808", base 10, allowSign)` with the `int64_t`
-accumulator is a signed overflow (confirmed under UBSan at parser/Tokenizer.cc:297), although -2^63 fits. -/
-theorem int64_ub_counterexample :
-    int64Core true [45,57,50,50,51,51,55,50,48,51,54,56,53,52,55,55,53,56,48,56] 10 true npos = .ub := by decide
-
-/-- in base 16 the multiplication `acc *= base` overflows (Tokenizer.cc:296): "-8000000000000000" -/
-theorem int64_ub_counterexample_hex :
-    int64Core true [45,56,48,48,48,48,48,48,48,48,48,48,48,48,48,48,48] 16 true npos = .ub := by decide
+/-- in particular the most negative value is parsed, exactly -/
+theorem int64_min_parsed :
+    int64Raw [45,57,50,50,51,51,55,50,48,51,54,56,53,52,55,55,53,56,48,56] 10 true npos = .ok (-9223372036854775808) 20 := by decide
 
 /-- the effective base as a function of the visible pieces of the numeral -/
 def effBase (base : Int) (pre ds : Bytes) : Int :=
@@ -170,16 +140,15 @@ def digitRun (buf : Bytes) (base : Int) (allowSign : Bool) (limit : Nat) : Bool 
   let b := resolveBase px.1 px.2.1
   (sg.1, b, px.2.1.takeWhile (validDigit b))
 
-/-- **Failure is justified.** Outside the overflow zone `int64` returns false exactly when there is no digit where the
+/-- **Failure is justified.** `int64` returns false exactly when there is no digit where the
 number must start (this covers the empty buffer, limit 0, a lone sign, `0x` without a hex digit) or the exact value of
 the maximal digit run does not fit int64. It never fails on a representable number, and never succeeds on one that is not. -/
-theorem int64_fails_iff (buf : Bytes) (base : Int) (hb : base < 2147483648) (allowSign : Bool) (limit : Nat)
-    (hz : inUbZone buf base allowSign limit = false) :
+theorem int64_fails_iff (buf : Bytes) (base : Int) (hb : base < 2147483648) (allowSign : Bool) (limit : Nat) :
     int64Raw buf base allowSign limit = .fail ↔
       ((digitRun buf base allowSign limit).2.2 = [] ∨
        ¬ (i64Min ≤ signedValue (digitRun buf base allowSign limit).1 (digitRun buf base allowSign limit).2.1 (digitRun buf base allowSign limit).2.2 ∧
           signedValue (digitRun buf base allowSign limit).1 (digitRun buf base allowSign limit).2.1 (digitRun buf base allowSign limit).2.2 ≤ i64Max)) := by
-  rw [int64_refines_spec_partial buf base hb allowSign limit hz]
+  rw [int64_refines_spec buf base hb allowSign limit]
   unfold specInt64 digitRun
   simp only
   by_cases h1 : (buf.isEmpty || limit == 0) = true
@@ -256,34 +225,64 @@ theorem parseOffset_exact (s : Bytes) :
       | some (v, e) => if Gen.TokConsts.llongMin ≤ v ∧ v ≤ Gen.TokConsts.llongMax then some (v, e) else none :=
   parseOffset_eq s
 
-/-- **httpHeaderParseInt, partial**: exact whenever the exact value fits an `int` (it then fails only for a zero value
-not written with a leading digit, e.g. " 0", "-0"). -/
-theorem parseInt_exact_partial (s : Bytes) (v : Int) (e : Nat) (hx : exactDec s = some (v, e))
+/-- **httpHeaderParseInt is exact (headline)**: it returns the exact value of `[ws][sign]digits` when that fits an `int`
+(failing only for a zero not written with a leading digit, e.g. " 0", "-0"), and fails otherwise; never a wrapped value. -/
+theorem parseInt_exact (s : Bytes) :
+    parseInt s = match exactDec s with
+      | none => none
+      | some (v, _) =>
+        if Gen.TokConsts.intMin ≤ v ∧ v ≤ Gen.TokConsts.intMax then
+          (if v = 0 ∧ isDigitC (firstChar s) = false then none else some v)
+        else none := by
+  unfold parseInt
+  rw [source_flags.2]
+  exact parseInt_checked_eq s
+
+/-- the former wrap witnesses are rejected now -/
+theorem parseInt_rejects_wide_values :
+    parseInt [52,50,57,52,57,54,55,50,57,55] = none ∧
+    parseInt [57,57,57,57,57,57,57,57,57,57,57,57,57,57,57,57,57,57,57,57] = none ∧
+    parseInt [50,49,52,55,52,56,51,54,52,55] = some 2147483647 := by decide
+
+/-! ### pre-fix variant of the model (int64_t accumulator, atoi) — NOT the current code
+
+These statements are about `int64Core true` and `parseIntCore true`, the model variants of the code before commits
+cc4ab0d / 5201bbe. They record exactly where the old code violated the property. -/
+
+/-- pre-fix: outside `inUbZone` even the signed accumulator computed the specification … -/
+theorem prefix_int64_refines_outside_zone (signed : Bool) (buf : Bytes) (base : Int) (hb : base < 2147483648) (allowSign : Bool)
+    (limit : Nat) (hz : inUbZone buf base allowSign limit = false) :
+    int64Core signed buf base allowSign limit = specInt64 buf base allowSign limit := by
+  rw [int64Core_eq signed buf base hb allowSign limit, hz]
+  simp
+
+/-- … and it overflowed on exactly the zone: a '-' numeral (sign accepted) one of whose digit-run prefixes denotes 2^63 -/
+theorem prefix_int64_ub_iff (buf : Bytes) (base : Int) (hb : base < 2147483648) (allowSign : Bool) (limit : Nat) :
+    int64Core true buf base allowSign limit = .ub ↔ inUbZone buf base allowSign limit = true := by
+  rw [int64Core_eq true buf base hb allowSign limit]
+  cases hz : inUbZone buf base allowSign limit with
+  | true => simp
+  | false => simpa using specInt64_ne_ub buf base allowSign limit
+
+/-- pre-fix witness: `int64("-9223372036854775808", 10, true)` was a signed overflow (UBSan at parser/Tokenizer.cc:297) -/
+theorem prefix_int64_ub_counterexample :
+    int64Core true [45,57,50,50,51,51,55,50,48,51,54,56,53,52,55,55,53,56,48,56] 10 true npos = .ub := by decide
+
+/-- pre-fix witness in base 16: `acc *= base` overflowed on "-8000000000000000" (Tokenizer.cc:296) -/
+theorem prefix_int64_ub_counterexample_hex :
+    int64Core true [45,56,48,48,48,48,48,48,48,48,48,48,48,48,48,48,48] 16 true npos = .ub := by decide
+
+/-- pre-fix: the atoi-based `httpHeaderParseInt` was exact only when the value fits an `int` -/
+theorem prefix_parseInt_exact_partial (s : Bytes) (v : Int) (e : Nat) (hx : exactDec s = some (v, e))
     (hr : Gen.TokConsts.intMin ≤ v ∧ v ≤ Gen.TokConsts.intMax) :
     parseIntCore true s = if v = 0 ∧ isDigitC (firstChar s) = false then none else some v := by
   rw [parseInt_atoi_partial, hx]
   simp [hr]
 
-/-- without digits it fails -/
-theorem parseInt_no_digits (s : Bytes) (hx : exactDec s = none) : parseIntCore true s = none := by
-  rw [parseInt_atoi_partial, hx]
-
-/-- The violation on the real code: `httpHeaderParseInt("4294967297")` succeeds with 1. -/
-theorem parseInt_wraps_counterexample : parseIntCore true [52,50,57,52,57,54,55,50,57,55] = some 1 := by decide
-
-/-- and `httpHeaderParseInt("99999999999999999999")` succeeds with -1 (saturated `long`, truncated). -/
-theorem parseInt_wraps_counterexample_big :
+/-- pre-fix witnesses: `httpHeaderParseInt("4294967297")` succeeded with 1, `("99999999999999999999")` with -1 -/
+theorem prefix_parseInt_wraps_counterexample : parseIntCore true [52,50,57,52,57,54,55,50,57,55] = some 1 := by decide
+theorem prefix_parseInt_wraps_counterexample_big :
     parseIntCore true [57,57,57,57,57,57,57,57,57,57,57,57,57,57,57,57,57,57,57,57] = some (-1) := by decide
-
-/-- **httpHeaderParseInt, full, for the range-checked variant**: the exact value or failure, never a wrapped value. -/
-theorem parseInt_exact_checked (s : Bytes) :
-    parseIntCore false s = match exactDec s with
-      | none => none
-      | some (v, _) =>
-        if Gen.TokConsts.intMin ≤ v ∧ v ≤ Gen.TokConsts.intMax then
-          (if v = 0 ∧ isDigitC (firstChar s) = false then none else some v)
-        else none :=
-  parseInt_checked_eq s
 
 /-! ### non-vacuity -/
 
